@@ -668,6 +668,68 @@ func c01Presence(c *Ctx, pp *pop.Population, tr *an.Tracer, rule string) {
 		}
 	}
 	r.Check(decOK, rule, "decoder:bit-test", c.pos(dec.Pos()), "the decoder skips a tagged field iff flags & (1 << tag.index) == 0")
+	// ... and an absent field is left as it was: nothing writes the field (reflect.Value.Set, decodeValue) on a path
+	// that then takes the bit-clear edge - a pointer allocated before the presence test turns "absent" into "present
+	// and empty", which re-encodes with the bit set
+	{
+		var tests []*ssa.If
+		for _, i := range an.Ifs(dec) {
+			cd, ok := an.Classify(i)
+			if !ok || cd.Kind != "eq" {
+				continue
+			}
+			if b, ok := cd.X.(*ssa.BinOp); ok && b.Op.String() == "&" && (isBitMask(b.X, tr) || isBitMask(b.Y, tr)) {
+				tests = append(tests, i)
+			}
+		}
+		var bad []string
+		for _, t := range tests {
+			for _, cs := range an.Calls(dec) {
+				if cs.Name != "(reflect.Value).Set" && !strings.HasSuffix(cs.Name, "Decoder).decodeValue") {
+					continue
+				}
+				// written before the test in the same iteration: the test is reachable from the writer without
+				// passing the head of the field loop (the innermost loop header that dominates the test)
+				var head *ssa.BasicBlock
+				for _, d := range dec.Blocks {
+					isHeader := false
+					for _, p := range d.Preds {
+						if d.Dominates(p) {
+							isHeader = true // a back edge ends here
+						}
+					}
+					if isHeader && d != t.Block() && d.Dominates(t.Block()) && reachesBlockStrict(t.Block(), d) && (head == nil || head.Dominates(d)) {
+						head = d
+					}
+				}
+				if cs.Block == t.Block() {
+					bad = append(bad, shortCallee(cs.Name)+" at "+c.pos(cs.Pos())+" runs in the block of the presence test")
+					continue
+				}
+				seen := map[*ssa.BasicBlock]bool{}
+				var walk func(b *ssa.BasicBlock) bool
+				walk = func(b *ssa.BasicBlock) bool {
+					for _, sc := range b.Succs {
+						if sc == head || seen[sc] {
+							continue
+						}
+						if sc == t.Block() {
+							return true
+						}
+						seen[sc] = true
+						if walk(sc) {
+							return true
+						}
+					}
+					return false
+				}
+				if head != nil && walk(cs.Block) {
+					bad = append(bad, shortCallee(cs.Name)+" at "+c.pos(cs.Pos())+" runs before the presence test at "+c.pos(t.Pos())+" in the same pass over the field")
+				}
+			}
+		}
+		r.Check(len(tests) > 0 && len(bad) == 0, rule, "decoder:absent-field-untouched", c.pos(dec.Pos()), strings.Join(bad, "; "))
+	}
 	// encoder: mask and emission shape
 	maskOK := false
 	for _, b := range enc.Blocks {
